@@ -114,7 +114,7 @@ theorem presence_preserved (fd : FD) (v : V) (hc : fd.card = .explicit) :
     canonField fd .unset = .unset ∧ ∃ w, canonField fd (.one v) = .one w := by
   simp [canonField, initField, hc]
 
-/-! ### with message-typed fields (nested, repeated, recursive types) -/
+/-! ### with message-typed fields (nested, repeated, recursive types) and real oneofs -/
 
 /-- what `Marshal` writes is exactly the record tree of the message: one record per set scalar element /
     packed run, one length-delimited record per set message field or list element whose payload is the
@@ -128,14 +128,14 @@ theorem marshal_record_tree (S : Schema) (md : MD) (fs : List F) (ops : List Enc
     kind, payload within the length limit), at every level -/
 theorem record_tree_well_formed (S : Schema) (hS : SchemaOK S) (i : Nat) (fs : List F) (hwf : WFs S (S.md i) fs) :
     OKs S (S.md i) (recsFields S 0 (S.md i) fs) := by
-  have := recs_ok S hS (S.md i) (hS i).1 (fun fd hfd => ((hS i).2 fd hfd).2.1) (S.md i) fs [] rfl hwf
+  have := recs_ok S hS (S.md i) (hS i).1 (fun fd hfd => ((hS i).2 fd hfd).1) (S.md i) fs [] rfl hwf
   simpa using this
 
 /-- decoding that tree with the record rule gives the message back, presence included, at every level -/
 theorem record_tree_decodes_to_message (S : Schema) (hS : SchemaOK S) (i : Nat) (fs : List F) (ops : List EncOp)
-    (hwf : WFs S (S.md i) fs) (ho : opsFields S (S.md i) fs = .ok ops) :
+    (hwf : WFs S (S.md i) fs) (hex : Excl (S.md i) fs) (ho : opsFields S (S.md i) fs = .ok ops) :
     foldN S (S.md i) (recsFields S 0 (S.md i) fs) (initFields (S.md i), []) = .ok (canonFs S (S.md i) fs, []) := by
-  have := fold_fields S hS (S.md i) [] (S.md i) fs [] ops (fun fd hfd => ((hS i).2 fd hfd).1) hwf ho
-  simpa [initFields] using this
+  have := fold_fields S hS (S.md i) fs [] (wfs_len S _ fs hwf) hex (S.md i) fs [] [] ops rfl rfl rfl hwf ho
+  simpa [initFields, canonFs] using this
 
 end Csproto.C05
